@@ -45,6 +45,7 @@ def pub(h):
         d["missed"] = [nrs(h.underflow), nrs(h.overflow), nrs(h.inner_missed)]
     else:
         d["missed"] = [nrs(h.missed)]
+    d["ire"] = [bool(b.includes_right_edge) for b in binnings]
     d["grid"] = [[rs(b.bin_width), rs(b._shift), int(b._times_min or 0), int(b.bin_count)] if isinstance(b, FixedWidthBinning) else None
                  for b in binnings]
     return d
@@ -142,8 +143,8 @@ def parse_version(s):
 
 class C08:
     ID = "C08"
-    N_QUICK = 300
-    N_THOROUGH = 6000
+    N_QUICK = 344           # 7/8 of them the older streams (as many as before), 1/8 the flag streams
+    N_THOROUGH = 6880
     N_SEARCH = 300
     RULE = ("histograms of every class (1-D, 2-D, ND, the seven transformed classes, collections of 1-3 members) x binning types "
             "(Static incl. gapped, Numpy, FixedWidth incl. adaptive and shifted, Exponential) x all seven dtypes x missed values "
@@ -157,17 +158,42 @@ class C08:
             "outside and growing adaptive bins; *=, /=, +=, -=; set_dtype; name / title / axis names / meta_data entries; in-place "
             "merge_bins; keep_missed; missed slots; frequencies / errors2 setters; normalize; collection add / create), after each of "
             "which the round trip must reproduce the object as it is then, field by field, serialise again to the same document, and "
-            "leave the untouched object's document as it was. non-trivial = non-zero contents; distinct = case hash")
+            "leave the untouched object's document as it was; every 8th case one of the flag streams: (col_state, 60 %) a collection "
+            "over a fixed-width binning (facade / multi_h1 with 'fixed_width', 'pretty', 'human', 'integer'; binning + create; "
+            "ready-made histograms with a binning object each) of 1-7 members with the same bins whose state differs after 1-6 public "
+            "calls (adaptive flag toggled by method / property / binning on single members, add() of a histogram with the other flag "
+            "or with the collection's own binning object, create(), keep_missed at creation or switched later, all members grown "
+            "alike, weight beside the bins of non-adaptive members, set_dtype, float weights, name / title / axis_name / meta data, "
+            "members without data), written with to_json and to a scratch file (to_json(path) / save_json) and read with parse_json / "
+            "load_json: every member its own class, binning class, bins, flags, contents, errors, missed, dtype, meta data; == both "
+            "ways; second serialisation; the version gate on that very document; then fill(value beside / inside the bins) on every "
+            "member of the original and of both objects read: same result, and bins grown iff the member was adaptive when written, "
+            "weight counted as missed otherwise; (nd_flags, 20 %) 2-4-d histograms over fixed-width and explicit axes with per-axis "
+            "adaptive flags, 0-3 of them toggled after the construction (binning / histogram, method / property), then fill of a point "
+            "beside the bins of one axis; (h1_flags, 20 %) 1-D histograms with 1-3 toggles after the construction and the same fill; "
+            "plus, in every run, the 56 combinations of (way of building) x (collection flag) x (final flags of two members) x (way of "
+            "toggling) and add() with either flag. non-trivial = non-zero contents; distinct = case hash")
     EXTRA_TRUST = ["CPython json and the shortest round-trip repr of doubles (the text layer) are trusted, not modelled"]
     ASSUMPTIONS = ["the model covers 1-D histograms over static / fixed-width binnings and the version order; the other classes and "
                    "binning types are covered by the round-trip oracle on the implementation",
                    "the serialise - mutate - serialise histories (kind jsonseq) have no counterpart in the model's op language: oracle only; "
                    "a history stops without a verdict when a change leaves an object that is no histogram (contents not of the binnings' "
-                   "shape, collection members with different binnings) or a refused call changed something (C18's subject)"]
+                   "shape, collection members with different binnings) or a refused call changed something (C18's subject)",
+                   "flag streams: the members of a collection go into the model one by one in the state observed when the collection is "
+                   "written (fixed-width bins, the five modelled dtypes); the model answers what is read back and what the following fill "
+                   "does to it. Kept out behind constants (see the docstrings): members whose bins grew apart (ENABLE_GROWN_MEMBER: "
+                   "written but refused on reading by the unchanged library) and binnings with a non-default includes_right_edge "
+                   "(ENABLE_RIGHT_EDGE_FLAG: the flag is not in the document; the property text does not list it)"]
 
     def gen_case(self, rng, k, tier):
         if k % 8 == 3:
             return self.gen_seq(rng)
+        if k % 8 == 5:
+            # per-member / per-axis state (flags reached by a sequence) and an operation that depends on the restored flags
+            r = rng.random()
+            if r < 0.6:
+                return self.gen_colx(rng)
+            return self.gen_ndflags(rng) if r < 0.8 else self.gen_h1flags(rng)
         kind = rng.choice(["h1", "h1", "h1", "nd", "special", "collection", "version"])
         return self.gen_plain(rng, kind)
 
@@ -354,8 +380,305 @@ class C08:
         return m
 
 
+    # ------------------------------------------------------------------ flag streams: state that differs per member / per axis
+    COLX_DTS = ["int64", "float64", "int32", "float32", "int16", "float16"]
+    MODEL_DTS = ("int64", "float64", "int32", "float32", "int16")
+    VERSION_POOL = ["0.3.20", "0.4.5", "{cur}", "{patch+1}", "{minor+1}", "{major+1}", "{cur}rc1", "{patch+1}a1", "0.0.1", "10.0"]
+
+    @staticmethod
+    def version_strings(names):
+        import physt
+        cur = physt.__version__
+        b = [int(x) for x in cur.split(".")[:3]]
+        table = {"{cur}": cur, "{patch+1}": f"{b[0]}.{b[1]}.{b[2] + 1}", "{minor+1}": f"{b[0]}.{b[1] + 1}.0", "{major+1}": f"{b[0] + 1}.0.0",
+                 "{cur}rc1": f"{cur}rc1", "{patch+1}a1": f"{b[0]}.{b[1]}.{b[2] + 1}a1"}
+        return [table.get(n, n) for n in names]
+
+    def rand_post(self, rng):
+        """the operation after the round trip: one value beside the bins (k bins away) or inside them (k = 0)"""
+        w, wk = rng.choice([("1", "pyint"), ("1", "pyint"), ("2", "pyint"), ("3", "pyint"), ("1/2", "pyfloat")])
+        return {"side": rng.choice(["right", "right", "left"]), "k": rng.choice([0, 1, 1, 2, 3]), "w": w, "wk": wk}
+
+    def gen_colx(self, rng):
+        """a collection over a fixed-width (adaptive-capable) binning whose members reach different flags / dtype / meta data /
+        missed weight by a sequence of public calls; same bins for all members at the time of writing"""
+        ctor = rng.choice(["facade", "facade", "multi_h1", "binning", "binning", "binning", "hists", "hists"])
+        adaptive0 = rng.random() < 0.5
+        m = rng.choice([1, 2, 2, 2, 3, 3, 4])
+        w = rng.choice([1.0, 1.0, 0.5, 2.0, 0.25])
+        tmin, count = rng.randint(-4, 4), rng.randint(1, 6)
+        shift = rng.choice([0.0, 0.0, 0.5 * w, 0.25])
+        lo, hi = tmin * w + shift, (tmin + count) * w + shift
+        case = {"kind": "jsoncolx", "ctor": ctor, "adaptive0": adaptive0, "name": rng.choice([None, "coll", "c ä"]),
+                "title": rng.choice([None, None, "Collection title"])}
+        flags = [adaptive0] * m
+        clean = [True] * m              # no weight beside the bins so far (keep_missed may be switched off without leaving stale counts)
+        integral = [True] * m
+        members = []
+        names = [f"m{j}" for j in range(m)]
+        if ctor in ("facade", "multi_h1"):
+            bk = rng.choice(["fixed_width", "fixed_width", "pretty", "human", "integer"])
+            kw = {}
+            if bk == "fixed_width":
+                kw["bin_width"] = rs(w)
+                if rng.random() < 0.3:
+                    kw["bin_shift"] = rs(rng.choice([0.5 * w, 0.25 * w]))
+            elif bk in ("pretty", "human") and rng.random() < 0.5:
+                kw["bin_count"] = rng.choice([3, 5, 8])
+            case["bk"], case["kw"] = bk, kw
+            pool = [-3, -1, 0, 1, 2, 2, 4, 5, 7] if bk == "integer" else [-2.5, -1.0, -0.25, 0.0, 0.5, 0.75, 1.5, 2.0, 2.25, 3.5, 4.0, 6.5]
+            skip = rng.randrange(m) if (m > 1 and rng.random() < 0.3) else None         # a member without data
+            for j in range(m):
+                vals = [] if j == skip else [rng.choice(pool) for _ in range(rng.choice([1, 2, 4, 7]))]
+                members.append({"name": names[j], "vals": [rs(v) for v in vals]})
+            if len({v for mm in members for v in mm["vals"]}) < 2:
+                members[0 if skip != 0 else 1]["vals"] += [rs(pool[0]), rs(pool[-1])]
+        else:
+            case["grid"] = {"w": rs(w), "tmin": tmin, "count": count, "shift": rs(shift)}
+            inside = [lo + i * w / 4 for i in range(4 * count)]
+            outside = [lo - 1.25 * w, hi + 0.5 * w, hi + 3 * w]
+            for j in range(m):
+                mem = {"name": names[j]}
+                if ctor == "binning":
+                    n = rng.choice([0, 1, 3, 6])
+                    mem["keep"] = rng.random() < 0.8
+                    pool = inside if (adaptive0 or not mem["keep"]) else inside + outside       # an adaptive member must not grow alone
+                    mem["vals"] = [rs(rng.choice(pool)) for _ in range(n)]
+                    wkind = rng.choice([None, None, "int64", "float64"])
+                    mem["ws"] = None if wkind is None else [rs(rng.choice([1, 2, 3]) if wkind == "int64" else rng.choice([0.5, 1.0, 1.5, 2.0])) for _ in range(n)]
+                    mem["wkind"] = wkind
+                    mem["dtype"] = rng.choice([None, None, None, "float64", "int32"]) if wkind != "float64" else None
+                    integral[j] = wkind != "float64"
+                    clean[j] = all(v in [rs(x) for x in inside] for v in mem["vals"])
+                else:
+                    dt = rng.choice(self.COLX_DTS)
+                    isint = dt.startswith("int")
+                    mem["flag"] = flags[j] = rng.random() < 0.5
+                    mem["keep"] = rng.random() < 0.8
+                    mem["dtype"] = dt
+                    mem["freq"] = [rs(rng.randint(0, 9) if isint or rng.random() < 0.5 else rng.randint(0, 36) / 4) for _ in range(count)]
+                    mem["err2"] = None if rng.random() < 0.5 else [rs(Fraction(x) + rng.choice([0, 1, 2])) for x in mem["freq"]]
+                    mem["missed"] = ["0", "0", "0"] if (not mem["keep"] or rng.random() < 0.5) else [rs(rng.randint(0, 5)), rs(rng.randint(0, 5)), "0"]
+                    integral[j] = all(Fraction(x).denominator == 1 for x in mem["freq"])
+                    clean[j] = mem["missed"] == ["0", "0", "0"]
+                    if rng.random() < 0.4:
+                        mem["title"] = rng.choice(["T", "member title"])
+                    if rng.random() < 0.3:
+                        mem["axis_name"] = rng.choice(["x", "energy"])
+                members.append(mem)
+        case["members"] = members
+        keeps = [mm.get("keep", True) for mm in members]
+        # ---- the sequence
+        ops = []
+        grown = False
+        if all(flags) and rng.random() < 0.3:
+            ops.append({"op": "grow_all", "side": rng.choice(["right", "left"]), "k": rng.choice([1, 2, 3]),
+                        "ws": [rng.choice([1, 1, 2]) for _ in range(m)]})
+            grown = True
+        differ = rng.random() < 0.8         # make sure most cases end with different flags
+        for _ in range(rng.choice([1, 2, 3, 4, 5])):
+            j = rng.randrange(len(flags))
+            kind = rng.choice(["set_adaptive"] * 4 + ["fill"] * 3 + ["fill_n", "set_dtype", "keep_missed", "meta", "meta", "name", "title", "axis_name"] +
+                              ([] if grown else ["col_add", "col_add", "col_create"]))
+            op = {"op": kind, "m": j}
+            if kind == "set_adaptive":
+                op["v"] = not flags[j] if rng.random() < 0.8 else flags[j]
+                op["via"] = rng.choice(["method", "method", "property", "binning"])
+                flags[j] = op["v"]
+            elif kind in ("fill", "fill_n"):
+                # an adaptive member gets values inside its bins only (alone it would leave the common bins)
+                upool = [0.0, 0.1, 0.5, 0.77] if (flags[j] and not self.ENABLE_GROWN_MEMBER) else [-0.4, 0.0, 0.1, 0.5, 0.77, 1.0, 1.3, 2.5]
+                n = 1 if kind == "fill" else rng.randint(0, 3)
+                op["u"] = [rng.choice(upool) for _ in range(n)]
+                wt = rng.choice([None, None, 1, 2, 0.5])
+                op["w"] = wt
+                if any(u < 0 or u > 1 for u in op["u"]):
+                    clean[j] = False
+                if wt == 0.5:
+                    integral[j] = False
+            elif kind == "set_dtype":
+                op["dtype"] = rng.choice(["float64", "float32", "float16"] + (["int64", "int32", "int16"] if integral[j] else []))
+                op["via"] = rng.choice(["method", "property"])
+            elif kind == "keep_missed":
+                op["v"] = True if not clean[j] else rng.random() < 0.5
+                keeps[j] = op["v"]
+            elif kind == "meta":
+                op["key"] = rng.choice(["custom", "unit", "run"])
+                op["v"] = rng.choice([2, "other", [4, 5], {"b": [1, 2.5]}, None, False, 0.1])
+            elif kind in ("name", "title"):
+                op["v"] = rng.choice(["changed", "n2 é", f"x{j}"])
+            elif kind == "axis_name":
+                op["v"] = rng.choice(["p", "q q"])
+            elif kind == "col_add":
+                del op["m"]
+                dt = rng.choice(["int64", "int64", "float64", "int32", "float32"])
+                op.update({"flag": (not adaptive0) if rng.random() < 0.7 else adaptive0, "keep": rng.random() < 0.8, "dtype": dt,
+                           "freq": [rng.randint(0, 9) for _ in range(8)], "name": f"added{len(flags)}",
+                           "same_object": ctor != "hists" and rng.random() < 0.15 and not any(o.get("same_object") for o in ops)})
+                if op["same_object"]:
+                    op["flag"] = adaptive0          # the collection's own binning object is handed in as it is
+                flags.append(op["flag"]); clean.append(True); integral.append(True); keeps.append(op["keep"])
+            elif kind == "col_create":
+                del op["m"]
+                op.update({"u": [rng.choice([0.0, 0.1, 0.5, 0.77]) for _ in range(rng.randint(0, 3))], "name": f"created{len(flags)}",
+                           "keep": rng.random() < 0.8})
+                flags.append(flags[0] if ctor == "hists" else adaptive0)      # a copy of the collection's binning (the first member's there)
+                clean.append(True); integral.append(True); keeps.append(op["keep"])
+            ops.append(op)
+        if differ and len(flags) > 1 and len(set(flags)) == 1:
+            j = rng.randrange(len(flags))
+            ops.append({"op": "set_adaptive", "m": j, "v": not flags[j], "via": rng.choice(["method", "property", "binning"])})
+            flags[j] = not flags[j]
+        case["ops"] = ops
+        case["post"] = [self.rand_post(rng) for _ in flags]
+        case["versions"] = rng.sample(self.VERSION_POOL, rng.randint(2, 4))
+        case["tags"] = ["stream:col_state", "colx:ctor:" + ctor] + (["colx:grown_alike"] if grown else [])
+        return case
+
+    ENABLE_GROWN_MEMBER = False
+    """members of one collection whose bins grew apart (an adaptive member filled beside the common bins): the unchanged library
+    writes such a collection but refuses to read it back (HistogramCollection(*members) demands equal bins) -- reported, kept out"""
+    ENABLE_RIGHT_EDGE_FLAG = False
+    """binnings whose includes_right_edge is not the default of their class: the flag is not written to the document, so the
+    unchanged library restores the class default (the property text does not list the flag) -- reported, kept out"""
+
+    def gen_ndflags(self, rng):
+        """an N-d histogram whose axes differ in their flags (adaptive per axis, right-edge inclusion by binning class), some of
+        the flags toggled after the construction"""
+        d = rng.choice([2, 2, 2, 3, 3, 4])
+        axes, infos = [], []
+        fixed_only = rng.random() < 0.35
+        for _ in range(d):
+            if fixed_only or rng.random() < 0.6:
+                w = rng.choice([1.0, 0.5, 0.25, 2.0])
+                tmin, cnt = rng.randint(-3, 3), rng.randint(1, 3 if d == 4 else 4)
+                shift = rng.choice([0.0, 0.0, 0.5 * w])
+                ire = self.ENABLE_RIGHT_EDGE_FLAG and rng.random() < 0.3
+                adaptive = (not ire) and rng.random() < 0.5
+                axes.append(gen1.fixed_json(w, tmin, cnt, shift, adaptive=adaptive, ire=ire))
+                infos.append({"t": "fixed", "lo": tmin * w + shift, "hi": (tmin + cnt) * w + shift, "w": w, "n": cnt,
+                              "lefts": [(tmin + i) * w + shift for i in range(cnt)]})
+            else:
+                pairs, _ = gen1.rising_bins(rng, allow_gaps=False)
+                pairs = pairs[:3 if d == 4 else 4]
+                ire = not (self.ENABLE_RIGHT_EDGE_FLAG and rng.random() < 0.4)
+                axes.append(gen1.binning_json(pairs, ire=ire, form=rng.choice(["static_obj", "numpy_obj"])))
+                infos.append({"t": "static", "lo": pairs[0][0], "hi": pairs[-1][1], "w": 1.0, "n": len(pairs), "lefts": [p[0] for p in pairs]})
+        size = int(np.prod([i["n"] for i in infos]))
+        dt = rng.choice(["int64", "int64", "float64", "int32", "float32"])
+        isint = dt.startswith("int")
+        f = [rng.choice([0, 0, 1, 2, 3, 5, 8]) if isint else rng.choice([0, 0.5, 1.25, 2, 4.75]) for _ in range(size)]
+        e = None if rng.random() < 0.4 else [rng.randint(0, 9) if isint else rng.randint(0, 40) / 4 for _ in range(size)]
+        init = {"op": "of_arrays", "out": 0, "axes": axes, "freq": [rs(x) for x in f], "err2": None if e is None else [rs(x) for x in e],
+                "missed": rs(rng.randint(0, 4)), "dtype": dt, "names": rng.sample(["x", "y", "z", "t", "a", "b"], d) if rng.random() < 0.6 else None,
+                "keep": rng.random() < 0.8}
+        fixed_axes = [a for a in range(d) if axes[a]["t"] == "fixed" and not axes[a]["ire"]]
+        toggles = []
+        for _ in range(rng.choice([0, 1, 1, 2, 3])):
+            if not fixed_axes:
+                break
+            a = rng.choice(fixed_axes)
+            via = "hist" if (len(fixed_axes) == d and rng.random() < 0.3) else "binning"
+            toggles.append({"axis": a, "v": rng.random() < 0.5, "via": via, "how": rng.choice(["method", "property"])})
+        case = {"kind": "jsonnd", "flags": True, "init": init, "meta": {}, "toggles": toggles}
+        if rng.random() < 0.5:
+            case["meta"]["name"] = rng.choice(["n1", "my hist"])
+        # the operation after the round trip: a point inside all axes, or beside the bins of one axis
+        a = rng.randrange(d)
+        k = rng.choice([0, 1, 1, 2, 3])
+        side = rng.choice(["right", "right", "left"])
+        v = [rng.choice(i["lefts"]) for i in infos]
+        if k:
+            i = infos[a]
+            v[a] = i["hi"] + (k - 0.5) * i["w"] if side == "right" else i["lo"] - (k - 0.5) * i["w"]
+        elif self.ENABLE_RIGHT_EDGE_FLAG and rng.random() < 0.5:
+            v[a] = infos[a]["hi"]           # exactly on the last edge: counted iff the right edge is included
+        w, wk = rng.choice([("1", "pyint"), ("1", "pyint"), ("2", "pyint"), ("1/2", "pyfloat")])
+        case["post"] = {"axis": a, "k": k, "side": side, "v": [rs(x) for x in v], "w": w, "wk": wk}
+        fin = [b.get("adaptive", False) for b in self.nd_final_axes(case)]
+        case["tags"] = ["stream:nd_flags", f"d:{d}", "ndflags:adaptive:" + ("mixed" if len(set(fin)) > 1 else "all" if fin[0] else "none"),
+                        "ndflags:classes:" + ("mixed" if len({b['t'] for b in axes}) > 1 else axes[0]["t"])]
+        return case
+
+    @staticmethod
+    def nd_final_axes(case):
+        """the axes of a flag case with the toggles applied"""
+        axes = [dict(a) for a in case["init"]["axes"]]
+        for t in case.get("toggles", []):
+            for a in (range(len(axes)) if t["via"] == "hist" else [t["axis"]]):
+                axes[a]["adaptive"] = t["v"]
+        return axes
+
+    def gen_h1flags(self, rng):
+        """a 1-D histogram whose binning flags were toggled after it was made"""
+        base = self.gen_plain(rng, "h1", bts=["fixed", "fixed", "fixed_adaptive", "fixed_adaptive", "static", "numpy"],
+                              dts=["int64", "int64", "float64", "int32", "float32", "int16"])
+        s = base["spec"]
+        if s["missed"][0] is None:
+            s["missed"] = ["0", "0", "0"]           # (NaN markers have their own stream)
+        if not s["keep"]:
+            s["missed"] = ["0", "0", "0"]
+        if s["bt"] in ("fixed", "fixed_adaptive") and s["count"] == 0:
+            s["count"] = 2
+            s["freq"], s["err2"] = ["1", "0"], None
+        toggles = []
+        if s["bt"] in ("fixed", "fixed_adaptive"):
+            flag = s["bt"] == "fixed_adaptive"
+            for _ in range(rng.choice([1, 1, 2, 3])):
+                flag = (not flag) if rng.random() < 0.8 else flag
+                toggles.append({"v": flag, "via": rng.choice(["method", "property", "binning"])})
+        base["toggles"] = toggles
+        base["post"] = self.rand_post(rng)
+        base["tags"] = ["stream:h1_flags"] + base["tags"]
+        return base
+
+    def exhaustive_cases(self, tier):
+        """every combination of (way of building) x (flag of the collection's binning) x (final flags of two members) x (way of
+        toggling), and add() of a histogram carrying the other flag: 2 members, one value each, nothing else varied"""
+        out = []
+        post = [{"side": "right", "k": 2, "w": "1", "wk": "pyint"}, {"side": "left", "k": 1, "w": "2", "wk": "pyint"}, {"side": "right", "k": 1, "w": "1", "wk": "pyint"}]
+        for ctor in ("facade", "binning", "hists"):
+            for a0 in (False, True):
+                for f0 in (False, True):
+                    for f1 in (False, True):
+                        for via in (("method", "property", "binning") if ctor != "hists" else ("ctor",)):
+                            if ctor == "hists" and not a0:
+                                continue            # the members carry their flags from the start: a0 plays no role
+                            case = {"kind": "jsoncolx", "ctor": ctor, "adaptive0": a0, "name": "c", "title": None, "versions": [],
+                                    "tags": ["exhaustive:col_flags"]}
+                            if ctor == "facade":
+                                case.update({"bk": "fixed_width", "kw": {"bin_width": "1"},
+                                             "members": [{"name": "m0", "vals": ["1/2", "5/2"]}, {"name": "m1", "vals": ["3/2"]}]})
+                            elif ctor == "binning":
+                                case.update({"grid": {"w": "1", "tmin": 0, "count": 3, "shift": "0"},
+                                             "members": [{"name": "m0", "vals": ["1/2", "5/2"], "keep": True, "ws": None, "wkind": None, "dtype": None},
+                                                         {"name": "m1", "vals": ["3/2"], "keep": True, "ws": None, "wkind": None, "dtype": None}]})
+                            else:
+                                case.update({"grid": {"w": "1", "tmin": 0, "count": 3, "shift": "0"},
+                                             "members": [{"name": f"m{j}", "flag": f, "keep": True, "dtype": "int64", "freq": ["1", "0", str(j + 1)],
+                                                          "err2": None, "missed": ["0", "0", "0"]} for j, f in enumerate((f0, f1))]})
+                            case["ops"] = [] if ctor == "hists" else [{"op": "set_adaptive", "m": j, "v": f, "via": via}
+                                                                      for j, f in enumerate((f0, f1)) if f != a0]
+                            case["post"] = post[:2]
+                            out.append(case)
+        for a0 in (False, True):
+            for f in (False, True):
+                out.append({"kind": "jsoncolx", "ctor": "binning", "adaptive0": a0, "name": None, "title": "t", "versions": [],
+                            "grid": {"w": "1/2", "tmin": -2, "count": 4, "shift": "0"},
+                            "members": [{"name": "m0", "vals": ["-1/2", "1/4"], "keep": True, "ws": None, "wkind": None, "dtype": None}],
+                            "ops": [{"op": "col_add", "flag": f, "keep": True, "dtype": "int64", "freq": [1, 2, 3, 4, 5, 6, 7, 8], "name": "added1",
+                                     "same_object": False}],
+                            "post": post[:2], "tags": ["exhaustive:col_flags"]})
+        return out
+
     # ------------------------------------------------------------------ build the object
     def build(self, case):
+        h = self._build(case)
+        if case.get("toggles"):
+            self.apply_toggles(h, case)         # flags changed after the construction (flag streams)
+        return h
+
+    def _build(self, case):
         from physt.binnings import ExponentialBinning, FixedWidthBinning, NumpyBinning, StaticBinning
         from physt.histogram1d import Histogram1D
         from physt.histogram_collection import HistogramCollection
@@ -606,12 +929,448 @@ class C08:
         return {"outs": {"steps": recs, "stopped": stopped}, "log": log}
 
 
+    # ------------------------------------------------------------------ flag streams: running them
+    SCRATCH = "/var/tmp"
+
+    @staticmethod
+    def fixed_binning(w, tmin, count, shift, adaptive):
+        from physt.binnings import FixedWidthBinning
+        return FixedWidthBinning(bin_width=w, bin_count=count, bin_times_min=tmin, bin_shift=shift, adaptive=adaptive)
+
+    def build_colx(self, case, log):
+        """the collection after its history; None when the history left the class the stream is about"""
+        import physt
+        from physt.histogram1d import Histogram1D
+        from physt.histogram_collection import HistogramCollection
+        ctor, a0 = case["ctor"], case["adaptive0"]
+        mem = case["members"]
+        if ctor in ("facade", "multi_h1"):
+            data = {m["name"]: np.array([impl1.fl(v) for v in m["vals"]], dtype=float) for m in mem}
+            kw = {k: (impl1.fl(v) if isinstance(v, str) else v) for k, v in case["kw"].items()}
+            if a0:
+                kw["adaptive"] = True
+            for k in ("name", "title"):
+                if case[k] is not None:
+                    kw[k] = case[k]
+            col = physt.collection(data, case["bk"], **kw) if ctor == "facade" else HistogramCollection.multi_h1(data, case["bk"], **kw)
+        else:
+            g = case["grid"]
+            grid = (impl1.fl(g["w"]), g["tmin"], g["count"], impl1.fl(g["shift"]))
+            if ctor == "binning":
+                col = HistogramCollection(binning=self.fixed_binning(*grid, a0), name=case["name"], title=case["title"])
+                for m in mem:
+                    kw = {"keep_missed": m["keep"]}
+                    if m.get("dtype"):
+                        kw["dtype"] = m["dtype"]
+                    ws = None if m["ws"] is None else impl1.arr(m["ws"], np.dtype(m["wkind"]))
+                    col.create(m["name"], impl1.arr(m["vals"]), weights=ws, **kw)
+            else:
+                hs = []
+                for m in mem:
+                    dt = np.dtype(m["dtype"])
+                    kw = {k: m[k] for k in ("title", "axis_name") if k in m}
+                    hs.append(Histogram1D(self.fixed_binning(*grid, m["flag"]), impl1.arr(m["freq"], dt),
+                                          None if m["err2"] is None else impl1.arr(m["err2"], dt), keep_missed=m["keep"],
+                                          underflow=impl1.fl(m["missed"][0]), overflow=impl1.fl(m["missed"][1]),
+                                          inner_missed=impl1.fl(m["missed"][2]), name=m["name"], **kw))
+                col = HistogramCollection(*hs, name=case["name"], title=case["title"])
+        for i, op in enumerate(case["ops"]):
+            try:
+                self.colx_op(col, op)
+            except Exception as e:
+                log.append(f"op {i} {op['op']}: {type(e).__name__}: {e}"[:160])
+        return col
+
+    @staticmethod
+    def span(h):
+        bb = np.asarray(h.bins).reshape(-1, 2)
+        return float(bb[0, 0]), float(bb[-1, 1])
+
+    def beside(self, h, side, k):
+        """a value k bins beside the bins (in the middle of that would-be bin); k = 0: the left edge of the last / first bin"""
+        lo, hi = self.span(h)
+        if k == 0:
+            bb = np.asarray(h.bins).reshape(-1, 2)
+            return float(bb[-1, 0] if side == "right" else bb[0, 0])
+        w = float(h.binning.bin_width) if hasattr(h.binning, "bin_width") else 1.0
+        return hi + (k - 0.5) * w if side == "right" else lo - (k - 0.5) * w
+
+    def colx_op(self, col, op):
+        from physt.histogram1d import Histogram1D
+        name = op["op"]
+        if name == "grow_all":
+            v = self.beside(col.histograms[0], op["side"], op["k"])
+            for h, w in zip(col.histograms, op["ws"]):
+                h.fill(v, w)
+            return
+        if name == "col_add":
+            b = col.binning
+            if not op["same_object"]:
+                b = self.fixed_binning(float(b.bin_width), int(b._times_min), int(b.bin_count), float(b._shift), op["flag"])
+            f = np.array(op["freq"][:b.bin_count] + [0] * max(0, b.bin_count - len(op["freq"])), dtype=np.dtype(op["dtype"]))
+            col.add(Histogram1D(b, f, name=op["name"], keep_missed=op["keep"]))
+            return
+        if name == "col_create":
+            lo, hi = self.span(col.binning)
+            col.create(op["name"], [lo + u * (hi - lo) for u in op["u"]], keep_missed=op["keep"])
+            return
+        h = col.histograms[op["m"] % len(col.histograms)]
+        if name == "set_adaptive":
+            if op["via"] == "method":
+                h.set_adaptive(op["v"])
+            elif op["via"] == "property":
+                h.adaptive = op["v"]
+            else:
+                h.binning.set_adaptive(op["v"])
+        elif name in ("fill", "fill_n"):
+            lo, hi = self.span(h)
+            vals = [lo + u * (hi - lo) for u in op["u"]]
+            if not self.ENABLE_GROWN_MEMBER and h.is_adaptive():
+                vals = [v for v in vals if lo <= v < hi]        # an adaptive member must not grow alone (the flag may have been
+                                                                 # switched on by a later-inserted step): such values are left out
+            if name == "fill":
+                for v in vals:
+                    h.fill(v) if op["w"] is None else h.fill(v, op["w"])
+            else:
+                h.fill_n(np.array(vals, dtype=float), weights=None if op["w"] is None else np.array([op["w"]] * len(vals)))
+        elif name == "set_dtype":
+            if op["via"] == "method":
+                h.set_dtype(op["dtype"])
+            else:
+                h.dtype = op["dtype"]
+        elif name == "keep_missed":
+            if op["v"] or h.missed == 0:            # never leaves stale counts behind (the recorded finding's subject)
+                h.keep_missed = op["v"]
+        elif name == "meta":
+            h.meta_data[op["key"]] = copy.deepcopy(op["v"])
+        elif name in ("name", "title", "axis_name"):
+            setattr(h, name, op["v"])
+        else:
+            raise KeyError(name)
+
+    @staticmethod
+    def same_bins_all(col):
+        """all members over the same bins, contents of that shape (the class: members differ in state, not in bins)"""
+        hs = col.histograms
+        if not hs:
+            return True
+        b0 = np.asarray(hs[0].bins)
+        for h in hs:
+            b = np.asarray(h.bins)
+            if b.shape != b0.shape or not np.array_equal(b, b0):
+                return False
+            if np.shape(h.frequencies) != (b.shape[0],) or np.shape(h.errors2) != (b.shape[0],):
+                return False
+        return True
+
+    def post_fill(self, h, v, post):
+        """the operation that depends on the flags: returns what fill returned"""
+        w = impl1.num_of(post["w"], post["wk"])
+        try:
+            ix = h.fill(v, w)
+        except Exception as e:
+            return f"raised {type(e).__name__}: {e}"[:160]
+        if ix is None:
+            return None
+        if isinstance(ix, (tuple, list, np.ndarray)):
+            return [int(i) for i in ix]
+        return impl1.fb_json(ix, h)
+
+    def run_colx(self, case):
+        from physt.io import load_json, parse_json, save_json
+        log = []
+        out = {"status": "ok"}
+        col = self.build_colx(case, log)
+        if not self.same_bins_all(col):
+            out["status"] = "bins_differ"
+            if not self.ENABLE_GROWN_MEMBER:
+                return {"outs": out, "log": log}
+        if not col.histograms:
+            out["status"] = "no_members"
+            return {"outs": out, "log": log}
+        out["orig"] = snap(col)
+        try:
+            text = col.to_json()
+        except Exception as e:
+            out["error"] = f"to_json() raised {type(e).__name__}: {e}"[:200]
+            return {"outs": out, "log": log}
+        readers = {}
+        try:
+            readers["parse_json"] = parse_json(text)
+            with tempfile.TemporaryDirectory(dir=self.SCRATCH, prefix="c08_") as td:
+                path = os.path.join(td, "collection.json")
+                if len(case["members"]) % 2:
+                    col.to_json(path)
+                else:
+                    save_json(col, path)
+                with open(path, encoding="utf-8") as f:
+                    out["file_same_text"] = canon(f.read()) == canon(text)
+                readers["load_json"] = load_json(path)
+        except Exception as e:
+            out["error"] = f"reading the document back raised {type(e).__name__}: {e}"[:200]
+            return {"outs": out, "log": log}
+        doc = canon(text)
+        out["read"] = {}
+        for how, p in readers.items():
+            r = {"snap": snap(p), "eq": bool(col == p), "eq_reflected": bool(p == col)}
+            try:
+                doc2 = canon(p.to_json())
+                r["text_stable"] = doc2 == doc
+                if doc2 != doc:
+                    r["doc_diff"] = doc_diff(json.loads(doc), json.loads(doc2))
+            except Exception as e:
+                r["text_stable"] = False
+                r["doc_diff"] = [f"to_json() of the parsed object raised {type(e).__name__}: {e}"[:160]]
+            out["read"][how] = r
+        # the version gate, on this very document
+        d = json.loads(text)
+        out["declared"] = d.get("physt_compatible")
+        out["versions"] = []
+        for v in self.version_strings(case.get("versions", [])):
+            d2 = dict(d); d2["physt_compatible"] = v
+            try:
+                q = parse_json(json.dumps(d2))
+                out["versions"].append({"v": v, "refused": False, "same": snap(q) == out["read"]["parse_json"]["snap"]})
+            except Exception as e:
+                out["versions"].append({"v": v, "refused": True})
+        # one operation that depends on the restored flags, on the original and on what was read
+        shared = len({id(h.binning) for h in col.histograms}) < len(col.histograms)      # (a fill through one would grow the other's bins)
+        if not shared and all(isinstance(r["snap"].get("members"), list) and len(r["snap"]["members"]) == len(col.histograms) for r in out["read"].values()):
+            post, model = [], []
+            for j, h in enumerate(col.histograms):
+                ps = case["post"][j % len(case["post"])]
+                v = self.beside(h, ps["side"], ps["k"])
+                rec = {"v": rs(v), "side": ps["side"], "k": ps["k"], "w": ps["w"], "wk": ps["wk"]}
+                pm = readers["parse_json"].histograms[j]
+                model.append({"orig": impl1.snap1(h), "parsed": impl1.snap1(pm)})
+                rec["orig"] = {"ret": self.post_fill(h, v, ps), "snap": pub(h)}
+                for how, p in readers.items():
+                    q = p.histograms[j]
+                    rec[how] = {"ret": self.post_fill(q, v, ps), "snap": pub(q)}
+                model[-1]["parsed_after"] = impl1.snap1(pm)
+                post.append(rec)
+            out["post"] = post
+            out["_model"] = model
+        return {"outs": out, "log": log}
+
+    # the part shared by the 1-D and N-d flag streams
+    def apply_toggles(self, h, case):
+        from physt.histogram1d import Histogram1D
+        for t in case.get("toggles", []):
+            if isinstance(h, Histogram1D):
+                if t["via"] == "method":
+                    h.set_adaptive(t["v"])
+                elif t["via"] == "property":
+                    h.adaptive = t["v"]
+                else:
+                    h.binning.set_adaptive(t["v"])
+            elif t["via"] == "hist":
+                if t["how"] == "method":
+                    h.set_adaptive(t["v"])
+                else:
+                    h.adaptive = t["v"]
+            else:
+                h.binnings[t["axis"]].set_adaptive(t["v"])
+
+    def post_single(self, case, h, readers):
+        """the flag-dependent operation on a single histogram and on what was read from its document"""
+        from physt.histogram1d import Histogram1D
+        ps = case["post"]
+        one = isinstance(h, Histogram1D)
+        if one:
+            v = self.beside(h, ps["side"], ps["k"])
+            rec = {"v": rs(v)}
+            snapm = impl1.snap1
+        else:
+            v = [impl1.fl(x) for x in ps["v"]]
+            rec = {"v": ps["v"]}
+            snapm = implnd.snapn
+        rec.update({"w": ps["w"], "wk": ps["wk"], "side": ps["side"], "k": ps["k"], "axis": ps.get("axis", 0)})
+        rec["orig"] = {"ret": self.post_fill(h, v, ps), "snap": pub(h)}
+        for how, p in readers.items():
+            rec[how] = {"ret": self.post_fill(p, v, ps), "snap": pub(p)}
+            if how == "parse_json":
+                rec["_model_after"] = snapm(p)
+        return rec
+
+    # ------------------------------------------------------------------ flag streams: model and oracle
+    KEEP1 = {"bins", "freq", "err2", "under", "over", "inner", "keep", "dtype", "adaptive", "binning"}
+    KEEPN = {"bins", "shape", "freq", "err2", "missed", "keep", "dtype", "names", "adaptive"}
+
+    @staticmethod
+    def of_arrays_from(s, out):
+        """the model's construction of a 1-D histogram in the state a snapshot (impl1.snap1) shows; None if not expressible"""
+        b = s["binning"]
+        if b["t"] != "fixed" or any(x is None for x in s["freq"] + s["err2"]) or s["dtype"] not in C08.MODEL_DTS:
+            return None
+        if not s["keep"] and any(x not in ("0", None) for x in (s["under"], s["over"], s["inner"])):
+            return None
+        binning = {"t": "fixed", "w": b["w"], "shift": b["shift"], "tmin": b["tmin"], "count": b["count"], "adaptive": b["adaptive"],
+                   "align": True, "ire": b["ire"]}
+        return {"op": "of_arrays", "out": out, "binning": binning, "freq": s["freq"], "err2": s["err2"], "under": s["under"],
+                "over": s["over"], "inner": s["inner"], "dtype": s["dtype"], "keep": s["keep"]}
+
+    def model_colx(self, case, io):
+        """member by member: the state the member is in when the collection is written goes into the model as it is observed;
+        the model says what is read back and what the following fill does to it"""
+        o = io["outs"]
+        if o.get("status") != "ok" or "error" in o or "post" not in o:
+            return None
+        ops, sel = [], []
+        for j, (ms, rec) in enumerate(zip(o["_model"], o["post"])):
+            t = len(sel)
+            oa = self.of_arrays_from(ms["orig"], 2 * t)
+            if oa is None or any(isinstance(rec[k]["ret"], str) and rec[k]["ret"].startswith("raised") for k in ("orig", "parse_json")):
+                continue
+            sel.append(j)
+            ops += [oa, {"op": "roundtrip", "h": 2 * t, "out": 2 * t + 1},
+                    {"op": "fill", "h": 2 * t + 1, "v": rec["v"], "w": rec["w"], "wk": rec["wk"]}]
+        if not sel:
+            return None
+        io["_model_members"] = sel
+        return {"kind": "hist1", "ops": ops}
+
+    def diff_colx(self, case, model_ok, io):
+        o = io["outs"]
+        d = []
+        for t, j in enumerate(io["_model_members"]):
+            ms, rec = o["_model"][j], o["post"][j]
+            if model_ok[3 * t]["ret"] != "ok":
+                d.append(f"member{j}: the model refuses the state of the member as observed: {model_ok[3 * t]['ret']}")
+                continue
+            rt, fl_ = model_ok[3 * t + 1], model_ok[3 * t + 2]
+            d += [f"member{j} read back{x}" for x in diff_outputs(rt["regs"][2 * t + 1], ms["parsed"], self.KEEP1, None)]
+            d += [f"member{j} after fill({rec['v']}, {rec['w']}) on what was read{x}"
+                  for x in diff_outputs({"ret": fl_["ret"], "h": fl_["regs"][2 * t + 1]}, {"ret": rec["parse_json"]["ret"], "h": ms["parsed_after"]}, self.KEEP1 | {"ret", "h"}, None)]
+        return d[:8]
+
+    # ---- what the fill after the round trip must do, from the flags the ORIGINAL had when it was written
+    @staticmethod
+    def post_expect(a, b2, v, w, side, where):
+        """a: public snapshot of the original before the fill; b2: of the object read back, after fill(v, w)"""
+        F = Fraction
+        vs = [F(x) for x in (v if isinstance(v, list) else [v])]
+        w = F(w)
+        bins = [[(F(l), F(r)) for l, r in ax] for ax in a["bins"]]
+        if any(x is None for x in a["freq"] + a["err2"] + a["missed"] + b2["freq"] + b2["err2"] + b2["missed"]):
+            return []
+        for ax, bb in enumerate(bins):
+            consecutive = all(bb[i][1] == bb[i + 1][0] for i in range(len(bb) - 1))
+            if not bb or (a["grid"][ax] is None and not consecutive) or vs[ax] == bb[-1][1]:
+                return []           # gapped explicit bins / a value exactly on the last edge: only "same as on the original" is demanded
+        cell, outside = [], []
+        for ax, bb in enumerate(bins):
+            hit = [i for i, (l, r) in enumerate(bb) if l <= vs[ax] < r]
+            cell.append(hit[0] if hit else None)
+            if not hit:
+                outside.append(ax)
+        fails = []
+        fa, fb = [F(x) for x in a["freq"]], [F(x) for x in b2["freq"]]
+        ea, eb = [F(x) for x in a["err2"]], [F(x) for x in b2["err2"]]
+        ma, mb = [F(x) for x in a["missed"]], [F(x) for x in b2["missed"]]
+        what = f"{where}: fill({[str(x) for x in vs] if len(vs) > 1 else str(vs[0])}, {w})"
+        if not outside:
+            flat = 0
+            for ax, c in enumerate(cell):
+                flat = flat * len(bins[ax]) + c
+            want_f = list(fa); want_f[flat] += w
+            want_e = list(ea); want_e[flat] += w * w
+            if b2["bins"] != a["bins"] or fb != want_f or eb != want_e or mb != ma:
+                fails.append(f"fill_after_roundtrip: {what} inside the bins: expected content {want_f[flat]} in cell {cell} and nothing else changed; "
+                             f"contents {b2['freq']}, missed {b2['missed']}, bins changed: {b2['bins'] != a['bins']}")
+            return fails
+        if len(outside) > 1:
+            return []
+        ax = outside[0]
+        if a["adaptive_axes"][ax]:
+            nb = [(F(l), F(r)) for l, r in b2["bins"][ax]]
+            ok = any(l <= vs[ax] < r for l, r in nb) and all(x in nb for x in bins[ax])
+            others = all(b2["bins"][i] == a["bins"][i] for i in range(len(bins)) if i != ax)
+            if not ok or not others or sum(fb) != sum(fa) + w or sum(eb) != sum(ea) + w * w or mb != ma:
+                fails.append(f"fill_after_roundtrip: {what}: axis {ax} was adaptive when the histogram was written, so its bins must grow to hold the "
+                             f"value and the weight must be in the contents: bins of the axis {b2['bins'][ax]}, total {sum(fb)} (was {sum(fa)}), missed {b2['missed']} (was {a['missed']})")
+        else:
+            want_m = list(ma)
+            if a["keep_missed"]:
+                if len(ma) == 3:
+                    want_m[1 if vs[0] >= bins[0][-1][1] else 0] += w
+                else:
+                    want_m[0] += w
+            if b2["bins"] != a["bins"] or fb != fa or eb != ea or mb != want_m:
+                fails.append(f"fill_after_roundtrip: {what}: axis {ax} was not adaptive when the histogram was written, so the bins must stay and the "
+                             f"weight must be counted as missed ({'kept' if a['keep_missed'] else 'not kept'}): bins changed: {b2['bins'] != a['bins']}, "
+                             f"contents changed: {fb != fa}, missed {b2['missed']} (expected {[str(x) for x in want_m]})")
+        return fails
+
+    def post_oracle(self, a, rec, where):
+        """the record of one flag-dependent operation: the objects read back must behave as the original does, and as the flags
+        written demand"""
+        fails = []
+        a2 = rec["orig"]["snap"]
+        for how in ("parse_json", "load_json"):
+            if how not in rec:
+                continue
+            b2 = rec[how]["snap"]
+            raised = [isinstance(r, str) and r.startswith("raised") for r in (rec["orig"]["ret"], rec[how]["ret"])]
+            if raised[0] != raised[1]:
+                fails.append(f"fill_after_roundtrip: {where} [{how}]: fill({rec['v']}, {rec['w']}) on the original gave {rec['orig']['ret']}, on the object read back {rec[how]['ret']}")
+                continue
+            if raised[0]:
+                continue
+            fails += self.post_expect(a, b2, rec["v"], rec["w"], rec["side"], f"{where} [{how}]")
+            if rec["orig"]["ret"] != rec[how]["ret"]:
+                fails.append(f"fill_after_roundtrip: {where} [{how}]: fill({rec['v']}, {rec['w']}) returned {rec['orig']['ret']} on the original and {rec[how]['ret']} on the object read back")
+            for f in FIELDS + ("ire",):
+                if a2[f] != b2[f]:
+                    fails.append(f"fill_after_roundtrip: {where} [{how}]: after the same fill({rec['v']}, {rec['w']}) on the original and on the "
+                                 f"object read back, {f} differs: {a2[f]} vs {b2[f]}")
+                    break
+        return fails
+
+    def oracle_colx(self, case, io):
+        o = io["outs"]
+        if o.get("status") != "ok" and not (self.ENABLE_GROWN_MEMBER and o.get("status") == "bins_differ"):
+            return []               # the history left the class (a member's bins grew away from the others'): nothing is asserted
+        if "error" in o:
+            return ["collection_roundtrip_raises: " + o["error"]]
+        from packaging.version import Version
+        import physt
+        fails = []
+        a = o["orig"]
+        cur = Version(physt.__version__)
+        if o.get("file_same_text") is False:
+            fails.append("file_text: the document written to the file differs from the one to_json() returns")
+        for how, r in o["read"].items():
+            f = compare(a, r["snap"], how)
+            if "members" in r["snap"] and not f:
+                for i, (x, y) in enumerate(zip(a["members"], r["snap"]["members"])):
+                    if x["ire"] != y["ire"]:
+                        f.append(f"roundtrip_ire: {how}: member{i}: {x['ire']} -> {y['ire']}")
+            fails += f
+            if not (r["eq"] and r["eq_reflected"]):
+                fails.append(f"not_equal: {how}: the collection read back != the original")
+            if not r["text_stable"]:
+                fails.append(f"second_serialisation: {how}: serialising the collection read back gives a different document (entries {r.get('doc_diff')})")
+        for vr in o["versions"]:
+            want = cur < Version(vr["v"])
+            if vr["refused"] != want:
+                fails.append(f"version_gate: the collection's document requiring physt >= {vr['v']} was {'refused' if vr['refused'] else 'accepted'} by {cur}")
+            elif not want and vr.get("same") is False:
+                fails.append(f"version_gate: the collection's document requiring physt >= {vr['v']} is read differently")
+        if fails:
+            return fails[:6]
+        for j, rec in enumerate(o.get("post", [])):
+            fails += self.post_oracle(a["members"][j], rec, f"member{j}")
+        return fails[:6]
+
     def run_impl(self, case):
         from physt.io import load_json, parse_json
         from physt.histogram_collection import HistogramCollection
         log = []
         if case["kind"] == "jsonseq":
             return self.run_seq(case)
+        if case["kind"] == "jsoncolx":
+            return self.run_colx(case)
         if case["kind"] == "version":
             from physt import h1
             from physt.histogram_collection import HistogramCollection as HC
@@ -651,21 +1410,33 @@ class C08:
                 out["loaded"] = pub(q)
             if case["kind"] in ("json1", "jsonnd"):
                 d = h.to_dict()
-                out["dict"] = d
+                out["dict"] = copy.deepcopy(d)
+            if "post" in case:
+                # one operation that depends on the restored flags, on the original and on both objects read back
+                out["post"] = self.post_single(case, h, {"parse_json": p, "load_json": q})
         return {"outs": out, "log": log}
 
     # ------------------------------------------------------------------ model
     def model_case(self, case, io):
         if case["kind"] == "jsonseq":
             return None             # oracle-only: the model's op language has no histories of serialisations
+        if case["kind"] == "jsoncolx":
+            return self.model_colx(case, io)
         if isinstance(io["outs"], dict) and "error" in io["outs"]:
             return None
+        post = io["outs"].get("post") if isinstance(io["outs"], dict) else None
+        if post is not None and any(isinstance(post[k]["ret"], str) and post[k]["ret"].startswith("raised") for k in ("orig", "parse_json")):
+            post = None
         if case["kind"] == "version":
             return {"kind": "version", "current": parse_version(case["current"]), "required": [parse_version(v) for v in case["required"]]}
         if case["kind"] == "jsonnd":
             if case["init"].get("dtype") == "float16":
                 return None
-            return {"kind": "histn", "ops": [case["init"], {"op": "roundtrip", "h": 0, "out": 1}]}
+            init = case["init"] if not case.get("flags") else {**case["init"], "axes": self.nd_final_axes(case)}
+            ops = [init, {"op": "roundtrip", "h": 0, "out": 1}]
+            if post is not None:
+                ops.append({"op": "fill", "h": 1, "v": post["v"], "w": post["w"], "wk": post["wk"]})
+            return {"kind": "histn", "ops": ops}
         if case["kind"] != "json1":
             return None
         s = case["spec"]
@@ -678,17 +1449,22 @@ class C08:
             b = {"t": "static", "bins": [[e[i], e[i + 1]] for i in range(len(e) - 1)], "ire": True}
         else:
             b = {"t": "fixed", "w": s["w"], "shift": s["shift"], "tmin": s["tmin"] if s["count"] else 0, "count": s["count"],
-                 "adaptive": s["bt"] == "fixed_adaptive", "align": True, "ire": False}
+                 "adaptive": case["toggles"][-1]["v"] if case.get("toggles") else s["bt"] == "fixed_adaptive", "align": True, "ire": False}
         op = {"op": "of_arrays", "out": 0, "binning": b, "freq": s["freq"], "err2": s["err2"], "under": s["missed"][0],
               "over": s["missed"][1], "inner": s["missed"][2], "dtype": s["dtype"], "keep": s["keep"]}
-        return {"kind": "hist1", "ops": [op, {"op": "roundtrip", "h": 0, "out": 1}]}
+        ops = [op, {"op": "roundtrip", "h": 0, "out": 1}]
+        if post is not None:
+            ops.append({"op": "fill", "h": 1, "v": post["v"], "w": post["w"], "wk": post["wk"]})
+        return {"kind": "hist1", "ops": ops}
 
     def diff(self, case, model_ok, io):
         if case["kind"] == "version":
             return [f"version {v}: model refused={m} impl refused={i}" for v, m, i in zip(case["required"], model_ok, io["outs"]) if m != i]
         o = io["outs"]
+        if case["kind"] == "jsoncolx":
+            return self.diff_colx(case, model_ok, io)
         if case["kind"] == "jsonnd":
-            return self.diff_nd(case, model_ok, o)
+            return (self.diff_nd(case, model_ok, o) + self.diff_post(model_ok, o, self.KEEPN))[:8]
         doc = model_ok[1]["ret"]
         d = []
         impl = o["dict"]
@@ -736,7 +1512,17 @@ class C08:
             d.append(f"parsed: missed model={[m['under'], m['over'], m['inner']]} impl={p['missed']}")
         if m["dtype"] != p["dtype"] or m["keep"] != p["keep_missed"] or m["adaptive"] != p["adaptive"]:
             d.append("parsed: dtype / keep_missed / adaptive")
-        return d[:6]
+        return (d + self.diff_post(model_ok, o, self.KEEP1))[:8]
+
+    @staticmethod
+    def diff_post(model_ok, o, keep):
+        """the fill after the round trip: the model's answer on what it read back vs the implementation's on what it parsed"""
+        if len(model_ok) < 3 or "post" not in o:
+            return []
+        rec = o["post"]
+        return [f"after fill({rec['v']}, {rec['w']}) on what was read{x}" for x in
+                diff_outputs({"ret": model_ok[2]["ret"], "h": model_ok[2]["regs"][1]},
+                             {"ret": rec["parse_json"]["ret"], "h": rec["_model_after"]}, keep | {"ret", "h"}, None)]
 
     def diff_nd(self, case, model_ok, o):
         doc = model_ok[1]["ret"]
@@ -821,6 +1607,8 @@ class C08:
                 if refused != want:
                     fails.append(f"version_gate: a document requiring physt >= {v} was {'refused' if refused else 'accepted'} by {case['current']}")
             return fails
+        if case["kind"] == "jsoncolx":
+            return self.oracle_colx(case, io)
         if case["kind"] == "jsonseq":
             for rec in o["steps"]:
                 hist = f"after {rec['ser']}, {rec['op']}" + (" (refused)" if rec["status"] == "refused" else "")
@@ -874,6 +1662,10 @@ class C08:
                     if f == "missed" and not a["keep_missed"]:
                         continue
                     fails.append(f"roundtrip_{f}: {name}: {a[f]} -> {b[f]}")
+            if ("post" in case or case.get("flags")) and a["ire"] != b["ire"]:
+                fails.append(f"roundtrip_ire: {name}: includes_right_edge {a['ire']} -> {b['ire']}")
+        if "post" in o and not fails:
+            fails += self.post_oracle(o["orig"], o["post"], "histogram")
         return fails[:6]
 
     def nontrivial(self, case, io):
@@ -886,7 +1678,7 @@ class C08:
             o = done[-1]["objs"][done[-1]["on"]]["orig"]
             fr = o["freq"] if "freq" in o else [x for m in o["members"] for x in m["freq"]]
             return any(x not in ("0", None) for x in fr)
-        if "error" in io["outs"]:
+        if "error" in io["outs"] or "orig" not in io["outs"]:
             return False
         o = io["outs"]["orig"]
         fr = o["freq"] if "freq" in o else [x for m in o["members"] for x in m["freq"]]
@@ -894,6 +1686,26 @@ class C08:
 
     def tags(self, case, io):
         t = list(case["tags"])
+        if case["kind"] == "jsoncolx":
+            o = io["outs"]
+            t.append("colx:status:" + o.get("status", "?") + (":error" if "error" in o else ""))
+            if "orig" in o:
+                ms = o["orig"]["members"]
+                t.append(f"colx:members:{len(ms)}")
+                for f, nm in (("adaptive", "flags"), ("keep_missed", "keep"), ("dtype", "dtype"), ("meta", "meta"), ("axis_names", "axis_name")):
+                    t.append(f"colx:{nm}:" + ("differ" if len({json.dumps(m[f], sort_keys=True) for m in ms}) > 1 else "same"))
+                if any(any(x not in ("0", None) for x in m["missed"]) for m in ms):
+                    t.append("colx:missed_weight")
+                if any(all(x == "0" for x in m["freq"]) for m in ms):
+                    t.append("colx:empty_member")
+                if any(m["adaptive"] for m in ms) and any(r["k"] > 0 for r in o.get("post", [])):
+                    t.append("colx:post_grows")
+            t += sorted({"colx:op:" + op["op"] for op in case["ops"]})
+            if io.get("log"):
+                t.append("colx:refused_op")
+        if case.get("post") and case["kind"] != "jsoncolx" and isinstance(io["outs"], dict) and "post" in io["outs"]:
+            r = io["outs"]["post"]
+            t.append("post:" + ("inside" if r["k"] == 0 else "beside"))
         if case["kind"] == "jsonseq":
             for r in io["outs"]["steps"]:
                 t += ["seq:ser:" + r["ser"], "seq:op:" + r["op"]]
@@ -911,9 +1723,68 @@ class C08:
         return False
 
     def neighbours(self, case):
-        return []
+        """the same object with one more flag switched (used when only the correspondence with the model broke)"""
+        out = []
+        if case.get("kind") == "jsoncolx":
+            n = len(case["post"])
+            for j in range(n):
+                for v in (False, True):
+                    out.append({**case, "ops": case["ops"] + [{"op": "set_adaptive", "m": j, "v": v, "via": "method"}]})
+        elif case.get("kind") == "jsonnd" and case.get("flags"):
+            for a, b in enumerate(case["init"]["axes"]):
+                if b["t"] == "fixed" and not b["ire"]:
+                    for v in (False, True):
+                        out.append({**case, "toggles": case["toggles"] + [{"axis": a, "v": v, "via": "binning", "how": "method"}]})
+        elif case.get("kind") == "json1" and "toggles" in case and case["spec"]["bt"] in ("fixed", "fixed_adaptive"):
+            for v in (False, True):
+                out.append({**case, "toggles": case["toggles"] + [{"v": v, "via": "method"}]})
+        return out
+
+    SIMPLE_POST = {"side": "right", "k": 1, "w": "1", "wk": "pyint"}
+
+    def shrink_flag_case(self, case):
+        """smaller cases of the flag streams; every candidate is a well-formed case of the same stream (a history that would let
+        one member grow alone reports no verdict, so such a candidate is never taken)"""
+        out = []
+        if case["kind"] == "jsoncolx":
+            ops, mem = case["ops"], case["members"]
+            for i in range(len(ops)):
+                out.append({**case, "ops": ops[:i] + ops[i + 1:]})
+            if len(mem) > 1:
+                for j in range(len(mem)):
+                    if case["ctor"] in ("facade", "multi_h1") and len({v for k, m in enumerate(mem) if k != j for v in m["vals"]}) < 2:
+                        continue            # bins taken from the data need two different values
+                    # later steps address the members by position: those of the removed member go, the rest move down
+                    ops2 = [dict(o, m=o["m"] - (o["m"] > j)) if "m" in o else o for o in ops if o.get("m") != j]
+                    ops2 = [dict(o, ws=o["ws"][:j] + o["ws"][j + 1:]) if o["op"] == "grow_all" else o for o in ops2]
+                    out.append({**case, "members": mem[:j] + mem[j + 1:], "ops": ops2, "post": case["post"][:j] + case["post"][j + 1:] or [self.SIMPLE_POST]})
+            if case.get("versions"):
+                out.append({**case, "versions": []})
+            for j, ps in enumerate(case["post"]):
+                if ps != self.SIMPLE_POST:
+                    out.append({**case, "post": case["post"][:j] + [dict(self.SIMPLE_POST)] + case["post"][j + 1:]})
+            for j, m in enumerate(mem):
+                if len(m.get("vals", [])) > 1 and case["ctor"] == "binning":
+                    m2 = {**m, "vals": m["vals"][:1], "ws": None if m.get("ws") is None else m["ws"][:1]}
+                    out.append({**case, "members": mem[:j] + [m2] + mem[j + 1:]})
+            if case.get("title") or case.get("name"):
+                out.append({**case, "title": None, "name": None})
+            return out
+        tg = case.get("toggles", [])
+        for i in range(len(tg)):
+            out.append({**case, "toggles": tg[:i] + tg[i + 1:]})
+        ps = case.get("post")
+        if case["kind"] == "json1" and ps and ps != self.SIMPLE_POST:
+            out.append({**case, "post": dict(self.SIMPLE_POST)})
+        if case["kind"] == "jsonnd" and ps and (ps["w"], ps["wk"]) != ("1", "pyint"):
+            out.append({**case, "post": {**ps, "w": "1", "wk": "pyint"}})
+        if case.get("meta"):
+            out.append({**case, "meta": {}})
+        return out
 
     def shrink_candidates(self, case):
+        if case.get("kind") == "jsoncolx" or (case.get("kind") in ("json1", "jsonnd") and ("post" in case or "toggles" in case)):
+            return self.shrink_flag_case(case)
         if case.get("kind") != "jsonseq":
             return []
         out = []
